@@ -613,7 +613,13 @@ def unit_schema(U):
     IM_.prove_plain_schema(U, "C04", ["features", "duplicates", "autoincrements"])
 
 
-UNITS = [("schema", unit_schema), ("default_spec", unit_default_spec), ("id_handler", unit_id_handler), ("autoid", unit_autoid), ("getitem", unit_getitem), ("bounded", unit_bounded)]
+def unit_gtf_spec(U):
+    """the id_spec handed to the GTF importer is used entry by entry as given, whatever the relation keys are (shared with C03)"""
+    from props import C03
+    C03.unit_gtf_init_for("C04")(U)
+
+
+UNITS = [("schema", unit_schema), ("gtf_spec", unit_gtf_spec), ("default_spec", unit_default_spec), ("id_handler", unit_id_handler), ("autoid", unit_autoid), ("getitem", unit_getitem), ("bounded", unit_bounded)]
 
 
 def replay_file(doc):
